@@ -1,7 +1,7 @@
 (* Calibration sketch (round 0): control and extended-operation value codecs (src/controls_impl/*.rs, src/exop_impl/*.rs). C19. *)
 From Coq Require Import List ZArith NArith Lia Bool Arith.
 From Coq.Strings Require Import Byte String.
-From L3 Require Import Ber BerInt Frame Filter Request.
+From L3 Require Import Ber BerFixed BerInt Utf8 Frame Filter Request Entry.
 Import ListNotations.
 
 Definition s2b := Filter.s2b.
@@ -124,31 +124,133 @@ Proof. now destruct commit. Qed.
 Print Assumptions c19_sync_request.
 
 (* ---- composed with C07: from the control's value bytes, in any definite encoding, to what the parser hands the caller ---- *)
+Definition max_depth : nat := 100.                                                   (* MAX_DEPTH of the repaired lber parser *)
 Definition parse_value {A} (p : tree -> outcome A) (v : bytes) : outcome A :=       (* Control parsers start with parse_tag(val).expect(..) *)
-  match parse_tag (S (List.length v)) v with POk (t, _) => p t | _ => Panic end.
+  match parse_tag' (lim true max_depth) 0 (S (List.length v)) v with POk (t, _) => p t | _ => Panic end.
+Lemma parse_value_enc {A} (p : tree -> outcome A) t bs : BerEnc t bs -> (tdepth t <= S max_depth)%nat -> parse_value p bs = p t.
+Proof. intros He Hd. unfold parse_value.
+  pose proof (c07_any_encoding_parses_limited max_depth t bs [] He Hd) as Hp. rewrite app_nil_r in Hp. now rewrite Hp. Qed.
 Theorem c19_paged_response_bytes size cookie sz bs : (0 <= size < 2^31)%Z -> parse_uint sz = Z.to_N size ->
   BerEnc (seq [P Universal 2 sz; oct cookie]) bs -> parse_value parse_paged bs = Ok (size, cookie).
-Proof.
-  intros Hs Hsz He. unfold parse_value.
-  pose proof (proj1 any_encoding_parses _ _ He (S (List.length bs)) [] ltac:(lia)) as Hp. rewrite app_nil_r in Hp. rewrite Hp.
-  now apply c19_paged_response.
-Qed.
+Proof. intros Hs Hsz He. rewrite (parse_value_enc _ _ _ He) by (cbn; unfold max_depth; lia). now apply c19_paged_response. Qed.
 Theorem c19_sync_state_bytes st uuid ck bs :
   BerEnc (seq (P Universal 10 (enc_small (state_code st)) :: oct uuid :: match ck with Some c => [oct c] | None => @nil tree end)) bs ->
   parse_value parse_sync_state bs = Ok (st, uuid, ck).
-Proof.
-  intros He. unfold parse_value.
-  pose proof (proj1 any_encoding_parses _ _ He (S (List.length bs)) [] ltac:(lia)) as Hp. rewrite app_nil_r in Hp. rewrite Hp.
-  apply c19_sync_state.
-Qed.
+Proof. intros He. rewrite (parse_value_enc _ _ _ He) by (destruct ck; cbn; unfold max_depth; lia). apply c19_sync_state. Qed.
 Theorem c19_sync_done_bytes (ck : option bytes) (rd : bool) bs :
   BerEnc (seq (app (match ck with Some c => [oct c] | None => @nil tree end) (if rd then [boolt true] else @nil tree))) bs ->
   parse_value parse_sync_done bs = Ok (ck, rd).
-Proof.
-  intros He. unfold parse_value.
-  pose proof (proj1 any_encoding_parses _ _ He (S (List.length bs)) [] ltac:(lia)) as Hp. rewrite app_nil_r in Hp. rewrite Hp.
-  apply c19_sync_done.
-Qed.
+Proof. intros He. rewrite (parse_value_enc _ _ _ He) by (destruct ck, rd; cbn; unfold max_depth; lia). apply c19_sync_done. Qed.
+
+(* ---- Assertion (RFC 4528) and MatchedValues (RFC 3876): the value is the BER of the filter the string denotes ---- *)
+Definition assertion_of (filter : bytes) : outcome rawctl :=                         (* parse(filter).expect("filter") *)
+  match Filter.parse filter with Some f => Ok (assertion f) | None => Panic end.
+(* parse_matched_values: "(" 1*( "(" item ")" ) ")" -> SEQUENCE OF the items' filters *)
+Fixpoint mv_items (g : nat) (i : bytes) : list tree * bytes :=
+  match g with O => ([], i) | S g' =>
+    match Filter.tag ["("%byte] i with
+    | Some r => match Filter.item r with
+                | Some (t, r') => match Filter.tag [")"%byte] r' with
+                                  | Some r'' => let (ts, rest) := mv_items g' r'' in (t :: ts, rest)
+                                  | None => ([], i) end
+                | None => ([], i) end
+    | None => ([], i) end end.
+Definition parse_mv (i : bytes) : option (list tree) :=
+  match Filter.tag ["("%byte] i with
+  | Some r => match mv_items (S (List.length r)) r with
+              | ((_ :: _) as ts, r') => match Filter.tag [")"%byte] r' with Some [] => Some ts | _ => None end
+              | ([], _) => None end
+  | None => None end.
+Definition matched_values_of (filter : bytes) : outcome rawctl :=
+  match parse_mv filter with Some items => Ok (matched_values items) | None => Panic end.
+Theorem c19_assertion f s : Filter.parse s = Some f -> assertion_of s = Ok {| r_oid := s2b "1.3.6.1.1.12"; r_crit := false; r_val := Some f |}.
+Proof. intros H. unfold assertion_of. now rewrite H. Qed.
+
+(* ---- SyncInfo (RFC 4533 syncInfoValue inside an IntermediateResponse) ---- *)
+Inductive sync_info :=
+| NewCookie (c : bytes) | RefreshDelete (ck : option bytes) (done : bool) | RefreshPresent (ck : option bytes) (done : bool)
+| SyncIdSet (ck : option bytes) (deletes : bool) (uuids : list bytes).
+Fixpoint uuid_list (l : list tree) : outcome (list bytes) :=
+  match l with [] => Ok [] | P _ _ v :: r => match uuid_list r with Ok vs => Ok (v :: vs) | Panic => Panic end | C _ _ _ :: _ => Panic end.
+(* the component loop: cookie only in pass 1, flag in pass <= 2, set in pass <= 3; anything else panics *)
+Fixpoint si_loop (l : list tree) (pass : nat) (ck : option bytes) (flag : bool) (uu : list bytes) : outcome (option bytes * bool * list bytes) :=
+  match l with [] => Ok (ck, flag, uu)
+  | comp :: r =>
+    match comp with
+    | P Universal 4 v => if Nat.leb pass 1 then si_loop r (S pass) (Some v) flag uu else Panic
+    | C Universal 4 _ => if Nat.leb pass 1 then si_loop r (S pass) None flag uu else Panic           (* expect_primitive() -> None *)
+    | P Universal 1 (b :: _) => if Nat.leb pass 2 then si_loop r (S pass) ck (negb (Byte.eqb b x00)) uu else Panic
+    | P Universal 1 [] => Panic | C Universal 1 _ => Panic
+    | C Universal 17 us => if Nat.leb pass 3 then match uuid_list us with Ok vs => si_loop r (S pass) ck flag vs | Panic => Panic end else Panic
+    | P Universal 17 _ => Panic
+    | _ => Panic end end.
+Definition si_value (t : tree) : outcome sync_info :=
+  match t with
+  | P Context 0 c => Ok (NewCookie c)
+  | C Context 0 _ => Panic
+  | C Context id l =>
+      if N.ltb id 4 then
+        match si_loop l 1 None (negb (N.eqb id 3)) [] with
+        | Panic => Panic
+        | Ok (ck, flag, uu) => if N.eqb id 1 then Ok (RefreshDelete ck flag) else if N.eqb id 2 then Ok (RefreshPresent ck flag) else Ok (SyncIdSet ck flag uu) end
+      else Panic
+  | _ => Panic end.
+Definition sync_info_oid := s2b "1.3.6.1.4.1.4203.1.9.1.4".
+Fixpoint si_tags (l : list tree) : outcome sync_info :=
+  match l with [] => Panic                                                         (* "out of tags" *)
+  | t :: r =>
+    if N.eqb (tree_id t) 0 then
+      match t with P _ _ oid => if Utf8.valid oid then if Entry.beqb oid sync_info_oid then si_tags r else Panic else Panic | _ => Panic end
+    else if N.eqb (tree_id t) 1 then
+      match t with P _ _ v => parse_value si_value v | _ => Panic end
+    else Panic end.
+Definition parse_syncinfo (t : tree) : outcome sync_info :=
+  match t with C _ id l => if N.eqb id 25 then si_tags l else Panic | _ => Panic end.
+(* what a server sends (RFC 4533): responseName [0] OID, responseValue [1] the BER of the syncInfoValue CHOICE *)
+Definition enc_si (si : sync_info) : tree :=
+  let ckl (ck : option bytes) := match ck with Some c => [oct c] | None => @nil tree end in
+  match si with
+  | NewCookie c => P Context 0 c
+  | RefreshDelete ck d => C Context 1 (ckl ck ++ (if d then [] else [boolt false]))           (* refreshDone DEFAULT TRUE *)
+  | RefreshPresent ck d => C Context 2 (ckl ck ++ (if d then [] else [boolt false]))
+  | SyncIdSet ck dl uu => C Context 3 (ckl ck ++ (if dl then [boolt true] else []) ++ [sett (map oct uu)]) end.   (* refreshDeletes DEFAULT FALSE *)
+Lemma uuid_list_oct uu : uuid_list (map oct uu) = Ok uu.
+Proof. induction uu as [|u l IH]; cbn; [reflexivity|now rewrite IH]. Qed.
+Theorem c19_sync_info_value si : si_value (enc_si si) = Ok si.
+Proof. destruct si as [c|[ck|] [|]|[ck|] [|]|[ck|] [|] uu]; cbn; rewrite ?uuid_list_oct; reflexivity. Qed.
+Lemma sync_oid_ok : Utf8.valid sync_info_oid = true. Proof. vm_compute. reflexivity. Qed.
+Lemma sync_oid_eq : Entry.beqb sync_info_oid sync_info_oid = true. Proof. vm_compute. reflexivity. Qed.
+Lemma si_tags_wire bs : si_tags [P Context 0 sync_info_oid; P Context 1 bs] = parse_value si_value bs.
+Proof. cbn [si_tags tree_id]. change (N.eqb 0 0) with true. change (N.eqb 1 0) with false. change (N.eqb 1 1) with true. cbv iota.
+  now rewrite sync_oid_ok, sync_oid_eq. Qed.
+Lemma tdepth_enc_si si : (tdepth (enc_si si) <= 2)%nat.
+Proof. assert (H : forall uu, fold_right (fun t acc => Nat.max (tdepth t) acc) 0%nat (map oct uu) = 0%nat) by (induction uu; cbn; auto).
+  destruct si as [c|[ck|] [|]|[ck|] [|]|[ck|] [|] uu]; cbn [enc_si tdepth app fold_right oct boolt sett]; rewrite ?H; cbn; lia. Qed.
+Theorem c19_sync_info si bs : BerEnc (enc_si si) bs ->
+  parse_syncinfo (C Application 25 [P Context 0 sync_info_oid; P Context 1 bs]) = Ok si.
+Proof. intros He. unfold parse_syncinfo. change (N.eqb 25 25) with true. cbv iota. rewrite si_tags_wire.
+  rewrite (parse_value_enc _ _ _ He); [apply c19_sync_info_value|]. pose proof (tdepth_enc_si si). unfold max_depth. lia. Qed.
+
+(* ---- Pre/Post-Read response (RFC 4527): a SearchResultEntry, handed to SearchEntry::construct ---- *)
+Definition parse_read_entry (v : bytes) : outcome sentry := parse_value (Entry.construct Utf8.valid) v.
+Lemma tdepth_prims (l : list bytes) : fold_right (fun t acc => Nat.max (tdepth t) acc) 0%nat (map (P Universal 4) l) = 0%nat.
+Proof. induction l as [|v l IH]; cbn; [reflexivity|exact IH]. Qed.
+Lemma tdepth_enc_attrs (l : list spec_attr) : (fold_right (fun t acc => Nat.max (tdepth t) acc) 0 (map enc_attr l) <= 2)%nat.
+Proof. induction l as [|a l IH]; cbn [map fold_right]; [lia|]. unfold enc_attr at 1. cbn [tdepth fold_right]. rewrite tdepth_prims. lia. Qed.
+Theorem c19_read_entry_resp dn attrs bs : BerEnc (enc_entry dn attrs) bs ->
+  parse_read_entry bs = Entry.construct Utf8.valid (enc_entry dn attrs).
+Proof. intros He. apply (parse_value_enc _ _ _ He). unfold enc_entry, max_depth. cbn [tdepth fold_right].
+  pose proof (tdepth_enc_attrs attrs). lia. Qed.
+
+(* ---- extended responses: WhoAmI and StartTxn values are the raw UTF-8 octets; PasswordModify is SEQUENCE { [0] genPasswd } ---- *)
+Definition parse_utf8_val (v : bytes) : outcome bytes := if Utf8.valid v then Ok v else Panic.
+Definition parse_passmod_resp_t (t : tree) : outcome bytes :=
+  match t with C _ _ (P Context 0 g :: _) => if Utf8.valid g then Ok g else Panic | _ => Panic end.
+Definition parse_passmod_resp (v : bytes) : outcome bytes := parse_value parse_passmod_resp_t v.
+Theorem c19_whoami_resp v : Utf8.valid v = true -> parse_utf8_val v = Ok v.
+Proof. intros H. unfold parse_utf8_val. now rewrite H. Qed.
+Theorem c19_passmod_resp g bs : Utf8.valid g = true -> BerEnc (seq [P Context 0 g]) bs -> parse_passmod_resp bs = Ok g.
+Proof. intros H He. unfold parse_passmod_resp. rewrite (parse_value_enc _ _ _ He) by (cbn; unfold max_depth; lia). cbn. now rewrite H. Qed.
 Print Assumptions c19_paged_response_bytes.
 
 (* ---- what the unchanged library builds for each request control and extended operation (last probe of round 0), on the model ---- *)
